@@ -172,4 +172,38 @@ func TestVerifC04Oversized(t *testing.T) {
 			}
 		}
 	}
+	// name-matched functions whose parameter list changes together with their behaviour (the
+	// structural matcher cannot even align their parameters): never "preserved"
+	sigPairs := []struct{ name, old, new, why string }{
+		{"param-type", "func Scale(x int32) int32 { return x + 1 }", "func Scale(x int64) int64 { return x + 2 }", "Scale(5) is 6 in the old version and 7 in the new one"},
+		{"param-added", "func Allowed(role int) bool { return role > 2 }", "func Allowed(role int, force bool) bool { return force || role > 3 }", "Allowed(3) is true in the old version, Allowed(3, false) is false in the new one"},
+		{"param-removed", "func Sum(a, b int) int { return a + b }", "func Sum(a int) int { return a + a + 1 }", "Sum(1, 2) is 3, Sum(1) is 3 only by accident; Sum(2,2)=4 vs Sum(2)=5"},
+		{"result-added", "func Get(a int) int { return a * 2 }", "func Get(a int) (int, error) { return a * 3, nil }", "Get(1) is 2 in the old version and 3 in the new one"},
+		{"receiver-kind", "type T struct{ k int }\n\nfunc (t T) Val(a int) int { return t.k + a }", "type T struct{ k int }\n\nfunc (t *T) Val(a int) int { return t.k - a }", "t.Val(1) adds in the old version and subtracts in the new one"},
+		{"variadic", "func Join(a ...int) int { return len(a) }", "func Join(a []int) int { return len(a) + 1 }", "Join() is 0, Join(nil) is 1"},
+	}
+	for i, sp := range sigPairs {
+		if !vh.Mine(i) {
+			continue
+		}
+		d := filepath.Join(scratch, "sig-"+sp.name)
+		os.MkdirAll(filepath.Join(d, "o"), 0o755)
+		os.MkdirAll(filepath.Join(d, "n"), 0o755)
+		op, np := filepath.Join(d, "o", "f.go"), filepath.Join(d, "n", "f.go")
+		os.WriteFile(op, []byte("package sample\n\n"+sp.old+"\n"), 0o644)
+		os.WriteFile(np, []byte("package sample\n\n"+sp.new+"\n"), 0o644)
+		out, err := ComputeDiff(RealFileSystem{}, op, np)
+		r.Eval()
+		if err != nil {
+			r.Fail("ComputeDiff(%s): %v", sp.name, err)
+			return
+		}
+		r.Nontrivial("signature-change/" + sp.name)
+		for _, fd := range out.Functions {
+			if fd.Function == "init" || fd.Status != "preserved" {
+				continue
+			}
+			r.Violate("signature-change/"+sp.name, fmt.Sprintf("%s -> %s: %s, yet sfw diff reports %s as preserved (fingerprint_match=%v, added=%v removed=%v)", sp.old, sp.new, sp.why, fd.Function, fd.FingerprintMatch, fd.AddedOps, fd.RemovedOps), map[string]interface{}{"pair": sp.name})
+		}
+	}
 }
